@@ -135,6 +135,8 @@ def run_bodies(shard, res: Result):
                 srv2.how_script = lambda how=how: how
                 sess2, r2 = mslab.authed_session(
                     srv2, ms.Seg(rng=random.Random(rng.randrange(1 << 30))), debug=True)
+                if i % 2:
+                    sess2.sock.seconds_per_recv = 1.5  # and the link is slow (virtual time)
                 out2 = sess2.call("getscript", "s")
                 res.count("getscript-cases-segmented-with-debug")
                 ok2 = out2[0] == "ret" and isinstance(out2[1], str) and \
